@@ -121,7 +121,7 @@ def gen_case(rng, tier):
         elif r < 0.62:
             ops.append(['readlines'])
         elif r < 0.68:
-            ops.append(['next'])
+            ops.append(['next'] if rng.random() < 0.7 else ['iternext'])
         elif r < 0.71:
             ops.append(['list'])
         elif r < 0.82:
@@ -222,6 +222,9 @@ def _install(sim, bufsize, fac=None):
     return fac
 
 
+_ITERS = {}
+
+
 def _do(f, op, text, ref_len):
     """Apply one op to file object f. -> (kind, value)"""
     name = op[0]
@@ -248,6 +251,16 @@ def _do(f, op, text, ref_len):
                 return ('stop', None)
         if name == 'list':
             return ('ok', list(f))
+        if name == 'iternext':
+            # one iterator object per file, obtained once with iter(f) and kept alive across writes,
+            # seeks and the rollover (a for-loop that is resumed later)
+            it = _ITERS.get(id(f))
+            if it is None:
+                it = _ITERS[id(f)] = iter(f)
+            try:
+                return ('ok', next(it))
+            except StopIteration:
+                return ('stop', None)
         if name == 'seek':
             return ('ok', f.seek(int(round(op[1] * ref_len))))
         if name == 'seekrel':
@@ -282,6 +295,7 @@ def run_case(case):
     out = core.Outcome()
     log = core.EventLog(keep=False)
     text = case['mode'] == 'text'
+    _ITERS.clear()
     iou.READ_CHUNK_SIZE = case.get('chunk', 21333)
     ref = io.StringIO() if text else io.BytesIO()
     cls = iou.SpooledStringIO if text else iou.SpooledBytesIO
@@ -309,7 +323,7 @@ def run_case(case):
                 special = True
             if name in ('seek', 'seekrel'):
                 seeked = True
-            if name in ('read', 'readline', 'readlines', 'next', 'list') and seeked:
+            if name in ('read', 'readline', 'readlines', 'next', 'iternext', 'list') and seeked:
                 read_after_seek = True
             want = _do(ref, op, text, ref_len)
             log.add('op', i, name, repr(want)[:200])
